@@ -545,6 +545,10 @@ func genPgLike(rng *rand.Rand) Case {
 		t := txn{id: fmt.Sprintf("%d", 800+i)}
 		wal += uint64(1 + rng.Intn(40))
 		t.begin = wal
+		if i > 0 && rng.Intn(3) == 0 {
+			// a concurrent transaction: its first record was written before the previous one committed
+			t.begin = txns[i-1].commit - uint64(1+rng.Intn(3))
+		}
 		for j := rng.Intn(5); j > 0; j-- {
 			wal += uint64(1 + rng.Intn(40))
 			t.changes = append(t.changes, wal)
